@@ -454,7 +454,7 @@ pub fn gen_graph(rng: &mut Rng, n: usize, decl_mode: DeclMode) -> GraphSpec {
         fns.push(FnDecl { reads: r, writes: w, style, own });
     }
     // swarm: a fifth of the graphs are run as a clone / as an older value refreshed by clone_from
-    let provenance = if n <= 300 && rng.chance(1, 5) { rng.range(1, 3) as u8 } else { 0 };
+    let provenance = if n <= 300 && rng.chance(1, 5) { rng.range(1, 4) as u8 } else { 0 };
     GraphSpec {
         fns,
         calls,
